@@ -46,7 +46,7 @@ def cases(draw):
             if i != first:
                 p["enabled"] = False  # K1 class is excluded here
     sched = draw(st.sampled_from([("synchronous", 1), ("threads", 1), ("threads", 2), ("threads", 4), ("threads", 16), ("threads", 4), ("processes", 2), ("processes", 4)]))
-    kind = draw(st.sampled_from(["deterministic", "deterministic", "stochastic"]))
+    kind = draw(st.sampled_from(["deterministic", "deterministic", "stochastic", "stateful"]))
     if kind == "stochastic" and sched[0] == "threads" and sched[1] > 1:
         sched = draw(st.sampled_from([("synchronous", 1), ("threads", 1), ("processes", 2)]))  # K2 class is excluded here
     return {"space": space, "sched": list(sched), "kind": kind, "delay_ms": draw(st.sampled_from([0.0, 1.0, 3.0])),
@@ -69,6 +69,8 @@ def _pipeline(case):
     extra = {"photon_collection": [{"name": "slow", "func": P + "delay", "enabled": True, "arguments": {"level": 0.0, "scale_ms": case["delay_ms"]}}]}
     if case["kind"] == "stochastic":
         extra["charge_measurement"] = [{"name": "rnd", "func": P + "stochastic", "enabled": True, "arguments": {"scale": 3.0}}]
+    if case["kind"] == "stateful":  # a model that keeps memory on the detector (as trapped charge does): every run must start from the configured detector
+        extra["charge_collection"] = [{"name": "mem", "func": P + "memory", "enabled": True, "arguments": {"bump": 0.25, "tag": "mem"}}]
     return echo_pipeline(extra)
 
 
